@@ -426,6 +426,9 @@ const (
 	ValidationStateValid ValidationState = iota
 	ValidationStateInvalid
 	ValidationStateUnknown
+	// A valid path that can't be part of an area, since it isn't a closed
+	// loop, see ingest.ValidatePathForArea
+	ValidationStateValidNotLoop
 )
 
 type Validator struct {
@@ -449,6 +452,9 @@ func (v *Validator) ValidatePath(p *ingest.GenericFeature, fs []ingest.Feature) 
 	if err := ingest.ValidatePath(p, &o, v.locations); err == nil {
 		fs = append(fs, p)
 		state = ValidationStateValid
+		if !v.isLoop(p) {
+			state = ValidationStateValidNotLoop
+		}
 	} else {
 		state = ValidationStateInvalid
 		log.Printf("ValidatePath: drop invalid path: %s", err)
@@ -464,6 +470,26 @@ func (v *Validator) ValidatePath(p *ingest.GenericFeature, fs []ingest.Feature) 
 	}
 	v.lock.Unlock()
 	return fs
+}
+
+// isLoop returns true if the valid path p is closed, and has enough points
+// to bound an area, mirroring ingest.ValidatePathForArea, which is applied
+// to the paths of areas in the in-memory world.
+func (v *Validator) isLoop(p b6.PhysicalFeature) bool {
+	if p.GeometryLen() < 3 {
+		return false
+	}
+	var ends [2]s2.Point
+	for i, j := range []int{0, p.GeometryLen() - 1} {
+		if ends[i] = p.PointAt(j); ends[i].Norm() == 0 {
+			ll, err := v.locations.FindLocationByID(p.Reference(j).Source())
+			if err != nil {
+				return false
+			}
+			ends[i] = s2.PointFromLatLng(ll)
+		}
+	}
+	return ends[0] == ends[1]
 }
 
 func (v *Validator) ValidateArea(a *ingest.AreaFeature, fs []ingest.Feature) []ingest.Feature {
@@ -484,7 +510,7 @@ func (v *Validator) validateArea(a *ingest.AreaFeature) ValidationState {
 		if ids, ok := a.PathIDs(i); ok {
 			for _, id := range ids {
 				if s, ok := v.paths[id]; ok {
-					if s == ValidationStateInvalid {
+					if s == ValidationStateInvalid || s == ValidationStateValidNotLoop {
 						state = ValidationStateInvalid
 					} else if s == ValidationStateUnknown && state == ValidationStateValid {
 						state = ValidationStateUnknown
